@@ -24,6 +24,10 @@ type Sym struct {
 	// that wrap).
 	Lo, Hi  int64
 	Bounded bool
+	// Num/Den: this Real term is the quotient Num/Den of two Real terms.
+	// Comparisons of a quotient with a constant are cross-multiplied, which
+	// keeps the encoding linear (a/b <= c  <=>  a <= c*b for b > 0).
+	Num, Den string
 }
 
 func isSym(v value) bool { _, ok := v.(*Sym); return ok }
@@ -145,7 +149,22 @@ func symBinop(op token.Token, t types.Type, x, y value) value {
 		case token.MUL:
 			return mk("Real", "*")
 		case token.QUO:
-			return mk("Real", "/")
+			if isSym(y) {
+				// division by zero is IEEE Inf/NaN in Go; the code under test
+				// guards it, and the reals have no such value: decide it
+				if X.decide(&Sym{Sort: "Bool", T: "(= " + b + " 0.0)"}) {
+					panic(unsupported{"float division by a symbolic zero"})
+				}
+			}
+			q := mk("Real", "/").(*Sym)
+			q.Num, q.Den = a, b
+			return q
+		case token.EQL, token.NEQ, token.LSS, token.LEQ, token.GTR, token.GEQ:
+			if t := quotCompare(op, x, y); t != "" {
+				return &Sym{Sort: "Bool", T: t}
+			}
+		}
+		switch op {
 		case token.EQL:
 			return mk("Bool", "=")
 		case token.NEQ:
@@ -264,4 +283,32 @@ func strBinop(op token.Token, x, y value) value {
 		}
 	}
 	panic(unsupported{"string operator " + op.String() + " on symbolic bytes"})
+}
+
+// quotCompare encodes (n/d) op c, or c op (n/d), for a constant c without
+// division: for d > 0 as n op c*d, for d < 0 with the comparison reversed.
+func quotCompare(op token.Token, x, y value) string {
+	qs, isQ := x.(*Sym)
+	other := y
+	swapped := false
+	if !isQ || qs.Den == "" {
+		qs, isQ = y.(*Sym)
+		other = x
+		swapped = true
+	}
+	if !isQ || qs.Den == "" || isSym(other) {
+		return ""
+	}
+	c := term(other)
+	rel := map[token.Token]string{token.EQL: "=", token.NEQ: "=", token.LSS: "<", token.LEQ: "<=", token.GTR: ">", token.GEQ: ">="}[op]
+	rev := map[string]string{"=": "=", "<": ">", "<=": ">=", ">": "<", ">=": "<="}
+	if swapped {
+		rel = rev[rel]
+	}
+	prod := "(* " + c + " " + qs.Den + ")"
+	t := "(ite (> " + qs.Den + " 0.0) (" + rel + " " + qs.Num + " " + prod + ") (" + rev[rel] + " " + qs.Num + " " + prod + "))"
+	if op == token.NEQ {
+		t = "(not " + t + ")"
+	}
+	return t
 }
